@@ -6,7 +6,7 @@ import verde as vd
 import xarray as xr
 from hypothesis import strategies as st
 
-from vlib import blocks, gen
+from vlib import blocks, build, gen
 from vlib.oracles import convex_hull, hull_classify
 from vlib.runner import Sub, Violation
 
@@ -47,7 +47,7 @@ def hull_cases(draw):
     off = draw(st.sampled_from([0.0, 1.0, -10.0, 100.0, -100.0]))
     return dict(lattice=lattice, data=data, query=query, scale=scale, aspect=aspect, offset=[off * scale, -off * scale * aspect],
                 form=draw(st.sampled_from(["array", "array2d", "grid"])), proj=draw(st.sampled_from([None, None, [2.0, 0.5], [-1.0, 3.0]])),
-                dshape=draw(st.sampled_from(blocks.shape_options(n))))
+                dshape=draw(st.sampled_from(blocks.shape_options(n))), orders=draw(build.orders_strategy()))
 
 
 def place(pts, case):
@@ -67,7 +67,8 @@ def check_hull(case, ctx):
     if len(hull) < 3:
         ctx.skip("degenerate_hull")
     d = place(case["data"], case)
-    dcoords = (d[:, 0].reshape(case["dshape"]), d[:, 1].reshape(case["dshape"]))
+    lay = build.Lay(case.get("orders"))
+    dcoords = (lay(d[:, 0], case["dshape"]), lay(d[:, 1], case["dshape"]))
     proj = None
     if case["proj"] is not None:
         ax, ay = case["proj"]
@@ -105,7 +106,7 @@ def check_hull(case, ctx):
         qshape = [len(case["query"])]
         if case["form"] == "array2d":
             qshape = blocks.shape_options(len(case["query"]))[-1]
-        mask = np.asarray(vd.convexhull_mask(dcoords, coordinates=(q[:, 0].reshape(qshape), q[:, 1].reshape(qshape)), **kw))
+        mask = np.asarray(vd.convexhull_mask(dcoords, coordinates=(lay(q[:, 0], qshape), lay(q[:, 1], qshape)), **kw))
         ctx.check(mask.shape == tuple(qshape) and mask.dtype == bool, "mask must be boolean with the query's shape")
         flat = mask.ravel()
         counts = {"in": 0, "out": 0, "on": 0}
